@@ -42,6 +42,8 @@ TBuild ==
   /\ IsEvent("build")
   /\ Build(Ev.copy)
   /\ Chk("build_accepted_or_rejected_as_specified", Ev.reason = rej')
+  /\ Chk("rejected_build_leaves_no_model_seed_input_on_the_nodes",
+         ("seed_inputs_left" \in DOMAIN Ev /\ ~Ev.ok) => Ev.seed_inputs_left = <<>>)
   /\ ObsNames
   /\ (IF Ev.ok THEN ProjOK(nmodels') /\ Chk("round_trip_reproduces_the_popped_model", rt' # "bad") ELSE TRUE)
   /\ Step
